@@ -85,8 +85,12 @@ Theorem C20_sections_at_quiescence :
 Proof. exact slot_atomic. Qed.
 Print Assumptions C20_sections_at_quiescence.
 
-(** every commitment-update request takes each channel slot at most once: its block in
-    [C20_slot_atomic_partial] is everything the request does to that channel *)
+(** every commitment-update request - the Channel entry points AND the protocol messages that
+    reach them through ChannelHandler::do_handle at protocol 4 and 6 (ValidateCommitmentTx2,
+    RevokeCommitmentTx, SignRemoteCommitmentTx2) - is ONE critical section of its channel slot:
+    its block in [C20_slot_atomic_partial] is everything the request does to that channel.  A
+    handler arm that validates under one hold of the channel lock and revokes / answers under
+    a second one (seeded change C20f) makes this obligation fail. *)
 Theorem C20_updates_single_section : forallb (single_section slot_class) update_progs = true.
 Proof. vm_compute. reflexivity. Qed.
 Print Assumptions C20_updates_single_section.
